@@ -204,7 +204,8 @@ class ConfigService:
             return []
         if isinstance(value, str):
             return [prefix for prefix in value.split(',') if prefix]
-        return value
+        # an empty item (a trailing comma in the environment variable) would be the prefix of every path
+        return [prefix for prefix in value if prefix]
 
     def _find_plugin(self, plugin_type) -> PLUGIN_TYPE:
         return next(self.__plugin_generator(plugin_type), None)
